@@ -97,6 +97,7 @@ func checkC02(c *h.Check) {
 	specs = append(specs, noCallSpecs()...)
 	specs = append(specs, rootNamedLibSpecs()...)
 	specs = append(specs, manyTwinsSpecs()...)
+	specs = append(specs, spellingSpecs()...)
 	cases, results := runSpecs(c, specs, map[string]bool{"wiring": true})
 	stdCoverage(c, cases, results, "all DAGs on N labelled types (node i depends on a subset of lower-numbered nodes, last node is the result), function providers by default; deviations (bounded per N, see explorer): node source kind (struct pointer/value, field, pointer-to-field, binding, value, injector parameter), type shape (leaf, pointer, named int, interface, slice), lib-package placement, nested lib set, variadic parameter, error/cleanup mix, nesting depth of the set (0-2 extra levels), one named set per node (also declared pairwise in one var spec), a second injector over the same set objects declared before or after the first. Oracle: every provider argument / struct field / selected field / result carries the identity minted by the model's designated source in the same call; exactly the needed providers run, once. Distinct = distinct rendered source.")
 	c.Coverage["explorer"] = exp
@@ -214,6 +215,45 @@ func manyTwinsSpecs() []specCase {
 				}
 				out = append(out, specCase{fmt.Sprintf("C02/manytwins/k=%d/sets=%d/chain=%d", k, viaSets, chain), g})
 			}
+		}
+	}
+	return out
+}
+
+// spellingSpecs: one unnamed type written in two ways (parameter names in a function type, a parenthesised
+// element type, an alias inside a composite): identical to Go, so there is one source and one instance.
+func spellingSpecs() []specCase {
+	var out []specCase
+	pairs := []struct{ name, a, b, key, val string }{
+		{"func-param-names", "func(delta int) int", "func(int) int", "func(int) int", "func(int) int { return 0 }"},
+		{"func-result-names", "func() (n int, err error)", "func() (int, error)", "func() (int, error)", "func() (int, error) { return 0, nil }"},
+		{"paren-elem", "[](int)", "[]int", "[]int", "[]int{1}"},
+		{"chan-paren", "chan (int)", "chan int", "chan int", "make(chan int)"},
+		{"struct-spacing", "struct{ A, B int }", "struct {\n\tA int\n\tB int\n}", "struct{A int; B int}", "struct{ A, B int }{}"},
+		{"interface-any", "interface{}", "any", "interface{}", "interface{}(1)"},
+		{"map-of-func", "map[string]func(x int)", "map[string]func(int)", "map[string]func(int)", "map[string]func(int){}"},
+	}
+	for _, pr := range pairs {
+		for order := 0; order < 2; order++ {
+			pr, order := pr, order
+			g := &GraphSpec{}
+			g.custom = func(b *ir.Builder) *ir.Program {
+				p := b.Root
+				ta := &ir.Type{Kind: ir.KRaw, Name: pr.a, RawKey: pr.key, RawValue: pr.val}
+				tb := &ir.Type{Kind: ir.KRaw, Name: pr.b, RawKey: pr.key, RawValue: pr.val}
+				if order == 1 {
+					ta, tb = tb, ta
+				}
+				o, bl, r := b.Leaf(p, "Orders"), b.Leaf(p, "Billing"), b.Leaf(p, "R")
+				inj := &ir.Injector{Name: "Init", Out: r, Items: []*ir.Item{
+					ir.FuncItem(&ir.Func{Pkg: p, Name: "NewSeq", Out: ta}),
+					ir.FuncItem(&ir.Func{Pkg: p, Name: "NewOrders", Params: []*ir.Type{ta}, Out: o}),
+					ir.FuncItem(&ir.Func{Pkg: p, Name: "NewBilling", Params: []*ir.Type{tb}, Out: bl}),
+					ir.FuncItem(&ir.Func{Pkg: p, Name: "PR", Params: []*ir.Type{o, bl}, Out: r}),
+				}}
+				return &ir.Program{Root: p, Injectors: []*ir.Injector{inj}}
+			}
+			out = append(out, specCase{fmt.Sprintf("C02/spelling/%s/order=%d", pr.name, order), g})
 		}
 	}
 	return out
